@@ -68,11 +68,11 @@ type svdCfg struct {
 }
 
 func genDgesvd(g *vlib.G) {
-	lim := vlib.Pick(g, 6, 10)
-	profs := profSet(g.Thorough(), 4)
+	lim := p3(g, 6, 8, 11)
+	profs := profSet(g, 4)
 	// leading dimensions vary independently: (lda, ldu, ldvt) paddings all different
 	ldsSmall := [][3]int{{0, 0, 0}, {2, 1, 3}}
-	if g.Thorough() {
+	if lvl(g) >= 1 {
 		ldsSmall = append(ldsSmall, [3]int{2, 2, 2}, [3]int{0, 2, 0}, [3]int{1, 0, 2})
 	}
 	var plan []svdCfg
@@ -85,8 +85,11 @@ func genDgesvd(g *vlib.G) {
 	}
 	// stock parameters: small, around the block size 32 and (thorough) the nx=128 / n=75 regions; tall and wide.
 	sq := []int{1, 2, 5, 31, 32, 33}
-	if g.Thorough() {
-		sq = append(sq, 74, 75, 76, 100, 129, 150)
+	if lvl(g) >= 1 {
+		sq = append(sq, 75, 100)
+	}
+	if lvl(g) >= 2 {
+		sq = append(sq, 74, 76, 129, 150, 200)
 	}
 	stockFams := []family{genFamilies[0], genFamilies[1], genFamilies[7], genFamilies[8]}
 	stockLds := [][3]int{{0, 0, 0}, {2, 1, 3}}
@@ -95,13 +98,16 @@ func genDgesvd(g *vlib.G) {
 		shapes = append(shapes, [2]int{n, n})
 	}
 	for _, n := range []int{1, 2, 5, 31, 32, 33} {
-		if n > 5 && !g.Thorough() && n != 32 {
+		if n > 5 && lvl(g) == 0 && n != 32 {
 			continue
 		}
 		shapes = append(shapes, [2]int{2 * n, n}, [2]int{n, 2 * n}, [2]int{12 * n, n}, [2]int{n, 12 * n})
 	}
-	if g.Thorough() {
-		shapes = append(shapes, [2]int{150, 75}, [2]int{75, 150}, [2]int{900, 75}, [2]int{75, 900}, [2]int{120, 75}, [2]int{119, 75}, [2]int{75, 120})
+	if lvl(g) >= 1 {
+		shapes = append(shapes, [2]int{120, 75}, [2]int{119, 75}, [2]int{75, 120})
+	}
+	if lvl(g) >= 2 {
+		shapes = append(shapes, [2]int{150, 75}, [2]int{75, 150}, [2]int{900, 75}, [2]int{75, 900})
 	}
 	for _, s := range shapes {
 		fams := stockFams
@@ -349,8 +355,8 @@ func bidiag(m, n int, d, e []float64) M {
 }
 
 func genDgebrd(g *vlib.G) {
-	lim := vlib.Pick(g, 6, 10)
-	profs := profSet(g.Thorough(), 4)
+	lim := p3(g, 6, 8, 11)
+	profs := profSet(g, 4)
 	type cfg struct {
 		m, n int
 		p    prof
@@ -360,13 +366,16 @@ func genDgebrd(g *vlib.G) {
 	for m := 0; m <= lim; m++ {
 		for n := 0; n <= lim; n++ {
 			for _, p := range profs {
-				plan = append(plan, cfg{m, n, p, genFamilies[:12]})
+				plan = append(plan, cfg{m, n, p, genFamilies[:13]})
 			}
 		}
 	}
 	shapes := [][2]int{{1, 1}, {2, 2}, {5, 5}, {33, 33}, {40, 33}, {33, 40}}
-	if g.Thorough() {
-		shapes = append(shapes, [2]int{129, 129}, [2]int{150, 130}, [2]int{130, 150}, [2]int{160, 160})
+	if lvl(g) >= 1 {
+		shapes = append(shapes, [2]int{129, 129}, [2]int{150, 130}, [2]int{130, 150})
+	}
+	if lvl(g) >= 2 {
+		shapes = append(shapes, [2]int{160, 160}, [2]int{300, 260})
 	}
 	for _, s := range shapes {
 		plan = append(plan, cfg{s[0], s[1], stockProf, []family{genFamilies[0], genFamilies[7]}})
@@ -749,7 +758,7 @@ func runBdsqr(t *vlib.T, p prof, m, n int, d, e []float64, a, q, pm M, ldx int) 
 // genDbdsqrMinWork calls Dbdsqr without vectors with exactly the documented
 // work length 4*(n-1).
 func genDbdsqrMinWork(g *vlib.G) {
-	for n := 0; n <= vlib.Pick(g, 6, 10); n++ {
+	for n := 0; n <= p3(g, 6, 10, 12); n++ {
 		for _, uplo := range []blas.Uplo{blas.Upper, blas.Lower} {
 			n, uplo := n, uplo
 			kase(g, fmt.Sprintf("Dbdsqr-novectors n=%d uplo=%c work=4(n-1)", n, uplo), func(t *vlib.T) {
@@ -806,7 +815,7 @@ func genDbdsqrMinWork(g *vlib.G) {
 // diagonal matrix with a negative last entry), upper and lower, for all eight
 // combinations of requested vectors including none.
 func genDbdsqrDirect(g *vlib.G) {
-	for n := 0; n <= vlib.Pick(g, 5, 7); n++ {
+	for n := 0; n <= p3(g, 5, 6, 7); n++ {
 		for zmask := 0; zmask < 1<<uint(max(0, n-1)); zmask++ {
 			for _, uplo := range []blas.Uplo{blas.Upper, blas.Lower} {
 				for _, ldx := range []int{0, 2} {
@@ -824,7 +833,6 @@ func genDbdsqrDirect(g *vlib.G) {
 }
 
 func runDbdsqrDirect(t *vlib.T, n, zmask int, uplo blas.Uplo, ldx int) {
-	dim := fmax(n)
 	cm := intGeneral(n, 2, 3, lcgFor(90, n, zmask))
 	for smask := 0; smask < 1<<uint(n); smask++ {
 		for order := 0; order < 2; order++ {
@@ -843,113 +851,8 @@ func runDbdsqrDirect(t *vlib.T, n, zmask int, uplo blas.Uplo, ldx int) {
 					e0[i] = float64(1 + i%2)
 				}
 			}
-			b := newM(n, n)
-			for i := range d0 {
-				b.set(i, i, d0[i])
-			}
-			for i := range e0 {
-				if uplo == blas.Upper {
-					b.set(i, i+1, e0[i])
-				} else {
-					b.set(i+1, i, e0[i])
-				}
-			}
-			nrm := fro(b)
-			oracle := jacobiSV(b)
-			ctx0 := fmt.Sprintf("d=%v e=%v", d0, e0)
-			// Dlasq1 (upper bidiagonal by definition; singular values do not depend on uplo)
-			if n > 0 {
-				d, e := append([]float64(nil), d0...), append([]float64(nil), e0...)
-				var info int
-				if !call(t, "Dlasq1 "+ctx0, func() { info = impl.Dlasq1(n, d, e, poisoned(4*n)) }) {
-					return
-				}
-				if info != 0 {
-					t.Failf("Dlasq1 info=%d [%s]", info, ctx0)
-				} else {
-					if !descendingNonneg(d) {
-						t.Failf("Dlasq1: singular values not non-negative descending: %v [%s]", d, ctx0)
-					}
-					chk(t, "direct-lasq1-s-vs-jacobi", ratio(maxDiff(d, oracle), dim, nrm), thresh, ctx0)
-				}
-			}
-			for mask := 0; mask < 8; mask++ {
-				ncvt, nru, ncc := 0, 0, 0
-				if mask&1 != 0 {
-					ncvt = n
-				}
-				if mask&2 != 0 {
-					nru = n
-				}
-				if mask&4 != 0 {
-					ncc = 2
-				}
-				ctx := fmt.Sprintf("%s ncvt=%d nru=%d ncc=%d", ctx0, ncvt, nru, ncc)
-				d, e := append([]float64(nil), d0...), append([]float64(nil), e0...)
-				var vts, us, cs *S
-				var vtd, ud, cd []float64
-				ldvt, ldu, ldc := max(1, ncvt)+off(ldx, 0), max(1, n)+off(ldx, 1), max(1, ncc)+off(ldx, 2)
-				if ncvt > 0 {
-					vts = fromM(eye(n), ldvt).snap()
-					vtd = vts.d
-				}
-				if nru > 0 {
-					us = fromM(eye(n), ldu).snap()
-					ud = us.d
-				}
-				if ncc > 0 {
-					cs = fromM(cm, ldc).snap()
-					cd = cs.d
-				}
-				var ok bool
-				if !call(t, "Dbdsqr "+ctx, func() {
-					ok = impl.Dbdsqr(uplo, n, ncvt, nru, ncc, d, e, vtd, ldvt, ud, ldu, cd, ldc, poisoned(max(0, 4*(n-1))))
-				}) {
-					return
-				}
-				if !ok {
-					t.Failf("Dbdsqr did not converge [%s]", ctx)
-					continue
-				}
-				if !descendingNonneg(d) {
-					t.Failf("Dbdsqr: singular values not non-negative descending: %v [%s]", d, ctx)
-				}
-				chk(t, "direct-bdsqr-s-vs-jacobi", ratio(maxDiff(d, oracle), dim, nrm), thresh, ctx)
-				sig := diagM(d)
-				var u, vt M
-				if us != nil {
-					if i, ok := us.padOK(n, n); !ok {
-						t.Failf("padding of u modified at flat index %d [%s]", i, ctx)
-					}
-					u = us.toM()
-					chk(t, "direct-bdsqr-UtU-I", ratio(orthCols(u), dim, 1), thresh, ctx)
-				}
-				if vts != nil {
-					if i, ok := vts.padOK(n, n); !ok {
-						t.Failf("padding of vt modified at flat index %d [%s]", i, ctx)
-					}
-					vt = vts.toM()
-					chk(t, "direct-bdsqr-VVt-I", ratio(orthRows(vt), dim, 1), thresh, ctx)
-				}
-				switch {
-				case us != nil && vts != nil:
-					chk(t, "direct-bdsqr-B-USVt", ratio(fro(sub(b, mul(mul(u, sig), vt))), dim, nrm), thresh, ctx)
-				case us != nil:
-					x := mul(u.T(), b)
-					chk(t, "direct-bdsqr-UtBBtU-S2", ratio(fro(sub(mul(x, x.T()), mul(sig, sig))), dim, nrm*nrm), thresh, ctx)
-				case vts != nil:
-					x := mul(b, vt.T())
-					chk(t, "direct-bdsqr-VBtBVt-S2", ratio(fro(sub(mul(x.T(), x), mul(sig, sig))), dim, nrm*nrm), thresh, ctx)
-				}
-				if cs != nil {
-					if i, ok := cs.padOK(n, ncc); !ok {
-						t.Failf("padding of c modified at flat index %d [%s]", i, ctx)
-					}
-					if us != nil {
-						chk(t, "direct-bdsqr-QtC", ratio(fro(sub(cs.toM(), mul(u.T(), cm))), dim, fro(cm)), thresh, ctx)
-					}
-				}
-				t.Count("bdsqr_direct_calls", 1)
+			if !checkBidiag(t, n, d0, e0, uplo, ldx, cm) {
+				return
 			}
 		}
 	}
@@ -957,4 +860,202 @@ func runDbdsqrDirect(t *vlib.T, n, zmask int, uplo blas.Uplo, ldx int) {
 		t.Nontrivial()
 	}
 	t.Outcome(fmt.Sprintf("diagonal=%v", zmask == 0))
+}
+
+// checkBidiag runs Dlasq1 and Dbdsqr (all eight vector masks, U = VT = I on
+// entry) on the n×n bidiagonal matrix (d0, e0) and checks them against the
+// definition. It returns false when the case must be abandoned (panic, hang).
+func checkBidiag(t *vlib.T, n int, d0, e0 []float64, uplo blas.Uplo, ldx int, cm M) bool {
+	dim := fmax(n)
+	b := newM(n, n)
+	for i := range d0 {
+		b.set(i, i, d0[i])
+	}
+	for i := range e0 {
+		if uplo == blas.Upper {
+			b.set(i, i+1, e0[i])
+		} else {
+			b.set(i+1, i, e0[i])
+		}
+	}
+	nrm := fro(b)
+	oracle := jacobiSV(b)
+	ctx0 := fmt.Sprintf("d=%v e=%v", d0, e0)
+	// Dlasq1 (upper bidiagonal by definition; singular values do not depend on uplo)
+	if n > 0 {
+		d, e := append([]float64(nil), d0...), append([]float64(nil), e0...)
+		var info int
+		if !call(t, "Dlasq1 "+ctx0, func() { info = impl.Dlasq1(n, d, e, poisoned(4*n)) }) {
+			return false
+		}
+		if info != 0 {
+			t.Failf("Dlasq1 info=%d [%s]", info, ctx0)
+		} else {
+			if !descendingNonneg(d) {
+				t.Failf("Dlasq1: singular values not non-negative descending: %v [%s]", d, ctx0)
+			}
+			chk(t, "direct-lasq1-s-vs-jacobi", ratio(maxDiff(d, oracle), dim, nrm), thresh, ctx0)
+		}
+	}
+	for mask := 0; mask < 8; mask++ {
+		ncvt, nru, ncc := 0, 0, 0
+		if mask&1 != 0 {
+			ncvt = n
+		}
+		if mask&2 != 0 {
+			nru = n
+		}
+		if mask&4 != 0 {
+			ncc = 2
+		}
+		ctx := fmt.Sprintf("%s ncvt=%d nru=%d ncc=%d", ctx0, ncvt, nru, ncc)
+		d, e := append([]float64(nil), d0...), append([]float64(nil), e0...)
+		var vts, us, cs *S
+		var vtd, ud, cd []float64
+		ldvt, ldu, ldc := max(1, ncvt)+off(ldx, 0), max(1, n)+off(ldx, 1), max(1, ncc)+off(ldx, 2)
+		if ncvt > 0 {
+			vts = fromM(eye(n), ldvt).snap()
+			vtd = vts.d
+		}
+		if nru > 0 {
+			us = fromM(eye(n), ldu).snap()
+			ud = us.d
+		}
+		if ncc > 0 {
+			cs = fromM(cm, ldc).snap()
+			cd = cs.d
+		}
+		var ok bool
+		if !call(t, "Dbdsqr "+ctx, func() {
+			ok = impl.Dbdsqr(uplo, n, ncvt, nru, ncc, d, e, vtd, ldvt, ud, ldu, cd, ldc, poisoned(max(0, 4*(n-1))))
+		}) {
+			return false
+		}
+		if !ok {
+			t.Failf("Dbdsqr did not converge [%s]", ctx)
+			continue
+		}
+		if !descendingNonneg(d) {
+			t.Failf("Dbdsqr: singular values not non-negative descending: %v [%s]", d, ctx)
+		}
+		chk(t, "direct-bdsqr-s-vs-jacobi", ratio(maxDiff(d, oracle), dim, nrm), thresh, ctx)
+		sig := diagM(d)
+		var u, vt M
+		if us != nil {
+			if i, ok := us.padOK(n, n); !ok {
+				t.Failf("padding of u modified at flat index %d [%s]", i, ctx)
+			}
+			u = us.toM()
+			chk(t, "direct-bdsqr-UtU-I", ratio(orthCols(u), dim, 1), thresh, ctx)
+		}
+		if vts != nil {
+			if i, ok := vts.padOK(n, n); !ok {
+				t.Failf("padding of vt modified at flat index %d [%s]", i, ctx)
+			}
+			vt = vts.toM()
+			chk(t, "direct-bdsqr-VVt-I", ratio(orthRows(vt), dim, 1), thresh, ctx)
+		}
+		switch {
+		case us != nil && vts != nil:
+			chk(t, "direct-bdsqr-B-USVt", ratio(fro(sub(b, mul(mul(u, sig), vt))), dim, nrm), thresh, ctx)
+		case us != nil:
+			x := mul(u.T(), b)
+			chk(t, "direct-bdsqr-UtBBtU-S2", ratio(fro(sub(mul(x, x.T()), mul(sig, sig))), dim, nrm*nrm), thresh, ctx)
+		case vts != nil:
+			x := mul(b, vt.T())
+			chk(t, "direct-bdsqr-VBtBVt-S2", ratio(fro(sub(mul(x.T(), x), mul(sig, sig))), dim, nrm*nrm), thresh, ctx)
+		}
+		if cs != nil {
+			if i, ok := cs.padOK(n, ncc); !ok {
+				t.Failf("padding of c modified at flat index %d [%s]", i, ctx)
+			}
+			if us != nil {
+				chk(t, "direct-bdsqr-QtC", ratio(fro(sub(cs.toM(), mul(u.T(), cm))), dim, fro(cm)), thresh, ctx)
+			}
+		}
+		t.Count("bdsqr_direct_calls", 1)
+	}
+	return true
+}
+
+// bidiagSpecial lists named special bidiagonal matrices of order n: Toeplitz
+// (constant diagonal and off-diagonal, including a zero diagonal), graded,
+// repeated singular values, and matrices that split into blocks of very
+// different size.
+func bidiagSpecial(n int) (names []string, ds, es [][]float64) {
+	add := func(name string, fd func(i int) float64, fe func(i int) float64) {
+		d, e := make([]float64, n), make([]float64, max(0, n-1))
+		for i := range d {
+			d[i] = fd(i)
+		}
+		for i := range e {
+			e[i] = fe(i)
+		}
+		names, ds, es = append(names, name), append(ds, d), append(es, e)
+	}
+	c := func(v float64) func(int) float64 { return func(int) float64 { return v } }
+	add("toep(1,1)", c(1), c(1))
+	add("toep(1,-1)", c(1), c(-1))
+	add("toep(0,1)", c(0), c(1))
+	add("toep(2,1)", c(2), c(1))
+	add("toep(-1,2)", c(-1), c(2))
+	add("graded-down", func(i int) float64 { return math.Ldexp(1, -3*i) }, func(i int) float64 { return math.Ldexp(1, -3*i-1) })
+	add("graded-up", func(i int) float64 { return math.Ldexp(1, 3*i-3*n) }, func(i int) float64 { return math.Ldexp(1, 3*i-3*n+1) })
+	add("repeated-2", c(2), func(i int) float64 { return float64(i%2) * 0 })
+	add("repeated-blocks", c(2), func(i int) float64 {
+		if i%3 == 2 {
+			return 0
+		}
+		return 1
+	})
+	add("tiny-then-normal", func(i int) float64 {
+		if i < n/2 {
+			return math.Ldexp(float64(1+i), -200)
+		}
+		return float64(1 + i)
+	}, func(i int) float64 {
+		switch {
+		case i+1 == n/2:
+			return 0
+		case i < n/2:
+			return math.Ldexp(1, -200)
+		}
+		return 1
+	})
+	add("normal-then-tiny", func(i int) float64 {
+		if i >= n/2 {
+			return math.Ldexp(float64(1+i), -200)
+		}
+		return float64(1 + i)
+	}, func(i int) float64 {
+		switch {
+		case i+1 == n/2:
+			return 0
+		case i >= n/2:
+			return math.Ldexp(1, -200)
+		}
+		return 1
+	})
+	return
+}
+
+func genDbdsqrSpecial(g *vlib.G) {
+	for n := 1; n <= p3(g, 8, 12, 16); n++ {
+		names, ds, es := bidiagSpecial(n)
+		for k := range names {
+			for _, uplo := range []blas.Uplo{blas.Upper, blas.Lower} {
+				for _, ldx := range []int{0, 2} {
+					n, k, uplo, ldx := n, k, uplo, ldx
+					kase(g, fmt.Sprintf("Dbdsqr/Dlasq1 n=%d %s uplo=%c ld=+%d", n, names[k], uplo, ldx), func(t *vlib.T) {
+						cm := intGeneral(n, 2, 3, lcgFor(91, n, k))
+						checkBidiag(t, n, ds[k], es[k], uplo, ldx, cm)
+						if n >= 2 {
+							t.Nontrivial()
+						}
+						t.Outcome(names[k])
+					})
+				}
+			}
+		}
+	}
 }
